@@ -159,8 +159,9 @@ def run(ctx):
         pbc = rng.choice([(True, True, True), (True, True, False), (True, True, True), (True, True, False)])
         if pbc == (True, True, False) and rng.random() < 0.6:
             L[2] = [0, 0, 1]          # a non-periodic cell vector shorter than every periodic lattice vector: it must not set the search radius
-        vs = [(0, 0, 0)] + [tuple(rng.choice([-1, 0, 1]) for _ in range(3)) for _ in range(rng.randint(0, 2))]
-        if k % 2 == 0:
+        tiny = [t_ for t_ in (tuple(rng.choice([-1, 0, 1]) for _ in range(3)) for _ in range(3)) if any(t_)][:rng.randint(1, 2)] or [(1, 0, 0)]
+        vs = [(0, 0, 0)] + tiny               # a zero vector next to very short ones: the search radius is tiny but not zero
+        if k % 3 == 0:
             vs = [(0, 0, 0)] * rng.randint(1, 2)          # nothing but self-images asked for
         elif rng.random() < 0.3:
             vs.append(lc.comb([rng.randint(-2, 2) for _ in range(3)], L))
@@ -171,6 +172,13 @@ def run(ctx):
         if lc.grid_size(b) <= 30000:
             half = any(lc.reduce_vec(L, pbc, v)[2] for v in vs)
             min_cases.append(dict(L=L, pbc=list(pbc), vs=[list(v) for v in vs], excl=True, stream="nonreduced-self", boundary=bool(edge or half)))
+    # the same family, crafted so that it does not depend on the draw: |a*| x |tiny| <= 1, so a radius taken from the tiny vector reaches only the
+    # 27 neighbour cells while the shortest lattice vector b - m a lies outside them
+    for a_, m_, d_ in ((10, 2, 1), (12, 2, -1), (10, 3, 1), (14, -2, 1)):
+        for tiny in ((0, 0, 1), (0, 0, -1)):
+            for pbc in ((True, True, True), (True, True, False)):
+                L = [[a_, 0, 0], [m_ * a_ + d_, 3, 0], [0, 0, 9]]
+                min_cases.append(dict(L=L, pbc=list(pbc), vs=[[0, 0, 0], list(tiny)], excl=True, stream="nonreduced-crafted", boundary=False))
     # corpus: witnesses of the defects found while reading (scaled to integers)
     min_cases.insert(0, dict(L=[[300, 0, 0], [0, 300, 0], [100, 0, 10]], pbc=[True] * 3, vs=[[0, 0, 16]], excl=False, stream="corpus-F03a", boundary=False))
     min_cases.insert(1, dict(L=[[300, 0, 0], [0, 300, 0], [100, 0, 10]], pbc=[True] * 3, vs=[[0, 0, 0]], excl=True, stream="corpus-F03b", boundary=False))
